@@ -38,9 +38,12 @@ independent (`FullRank`).
   right preconditioning; `bicgstabl_L1_init_rel`: the two `operator()`s enter their loops in related states;
   `bicgstabl_L1_guard_agree`: on related states the two loop guards agree unless `zeta = eps` exactly.
 
-NOT proved here: the induction over the whole loop (a corollary of the pass theorem under the per-pass side conditions,
-not written out; the harness op `bicgstabl_vs_bicgstab` compares the REAL solvers over whole calls exactly), the case
-`delta > 0`, polynomial optimality over the whole Krylov space and finite termination of BiCGStab(L).
+* `bicgstabl_L1_loop_is_bicgstab` — the induction over the whole loop: from related states with the same fuel, if the loop
+  of the bicgstabl model ends normally and no norm it meets (at the guard, after the `alpha` half step) equals the threshold
+  exactly (`NoTie`), the loop of the bicgstab model ends normally with the same `iter`, the same residual norm and the `x`
+  label `done:` hands back.  (The harness op `bicgstabl_vs_bicgstab` compares the REAL solvers over whole calls exactly.)
+
+NOT proved here: the case `delta > 0` of the refinement (the accurate update re-bases `x`, `B`, `X`), polynomial optimality over the whole Krylov space and finite termination of BiCGStab(L).
 -/
 namespace Amgcl.C05h
 open Amgcl Amgcl.Solver Amgcl.Solver.BiCGStabL Amgcl.Solver.QR
@@ -372,6 +375,60 @@ theorem bicgstabl_L1_guard_agree (side : Side) (P : Vec K → Vec K) (n maxiter 
   · have : sL.zeta < epsT := lt_of_le_of_ne (not_lt.mp h) hne
     simp [h, this]
 
+/-- **BiCGStab(1) = BiCGStab over the whole loop**: from related states, with the same fuel (`iter + fuel = maxiter`), if
+the loop of the bicgstabl model (`L = 1`, `delta ≤ 0`) ends normally and never meets a norm that equals the threshold exactly
+(`NoTie`), then the loop of the bicgstab model ends normally with the same `iter`, the same residual norm, and the `x` that
+label `done:` of bicgstabl hands back -/
+theorem bicgstabl_L1_loop_is_bicgstab (prm : BiCGStabL.Params K) (hL : prm.L = 1) (hd : ¬ 0 < prm.delta) (sqrt : K → K)
+    (c07 : K) (A : CRS K) (P : Vec K → Vec K) (n : Nat) (hF : Lin n (Ap prm.pside P A))
+    (hP : prm.pside = .right → Lin n P) (epsT zeta0 : K) :
+    ∀ (fuel : Nat) (sL sLe : BiCGStabL.St K) (sB : BiCGStab.St K), Rel1 prm.pside P n sL sB →
+      sL.iter + fuel = prm.maxiter → NoTie prm sqrt c07 A P epsT zeta0 fuel sL →
+      BiCGStabL.loop prm stdIp sqrt c07 A P epsT zeta0 fuel sL = (none, sLe) →
+      ∃ sBe, BiCGStab.loop prm.pside stdIp sqrt A P epsT fuel sB = (none, sBe) ∧
+        xOut prm.pside P sLe = sBe.x ∧ sLe.zeta = sBe.res ∧ sLe.iter = sBe.iter := by
+  intro fuel
+  induction fuel with
+  | zero =>
+    intro sL sLe sB rel _ _ h
+    simp only [BiCGStabL.loop, loopE] at h
+    cases h
+    exact ⟨sB, by simp only [BiCGStab.loop, loopE], rel.x, rel.zeta, rel.iter⟩
+  | succ k ih =>
+    intro sL sLe sB rel hfuel hnt h
+    obtain ⟨t1, t2⟩ := hnt
+    have hg := bicgstabl_L1_guard_agree prm.pside P n prm.maxiter epsT sL sB rel t1 (by omega)
+    unfold BiCGStabL.loop at h
+    unfold BiCGStab.loop
+    unfold loopE at h ⊢
+    rw [← hg]
+    by_cases hc : BiCGStabL.cond prm.maxiter epsT sL = true
+    · rw [if_pos hc] at h ⊢
+      obtain ⟨t3, t4⟩ := t2 hc
+      cases hb : BiCGStabL.body prm stdIp sqrt c07 A P epsT zeta0 sL with
+      | error e => rw [hb] at h; obtain ⟨e1, e2⟩ := e; simp only at h; cases h
+      | ok sL' =>
+        rw [hb] at h
+        simp only at h
+        obtain ⟨sB', hB', hcase⟩ := bicgstabl_L1_is_bicgstab prm hL hd sqrt c07 A P n hF hP epsT zeta0 sL sL' sB rel t3 hb
+        rw [hB']
+        simp only
+        rcases hcase with ⟨hdn, rel'⟩ | ⟨hdn, z, it, x, hle⟩
+        · have hit : sL'.iter = sL.iter + 1 := by
+            rcases body_iter prm stdIp sqrt c07 A P epsT zeta0 sL sL' rel.notdone hb with ⟨g, _⟩ | ⟨_, g⟩
+            · rw [hdn] at g; cases g
+            · rw [g, hL]
+          exact ih sL' sLe sB' rel' (by omega) (t4 sL' hb) h
+        · have hcl : BiCGStabL.cond prm.maxiter epsT sL' = false := by unfold BiCGStabL.cond; rw [hdn]; rfl
+          have hcb : BiCGStab.cond epsT sB' = false := by unfold BiCGStab.cond; exact decide_eq_false hle
+          rw [show loopE (BiCGStabL.cond prm.maxiter epsT) (BiCGStabL.body prm stdIp sqrt c07 A P epsT zeta0) k sL'
+            = (none, sL') from loopE_of_not_cond _ _ k sL' hcl] at h
+          cases h
+          exact ⟨sB', loopE_of_not_cond _ _ k sB' hcb, x, z, it⟩
+    · rw [if_neg hc] at h ⊢
+      cases h
+      exact ⟨sB, rfl, rel.x, rel.zeta, rel.iter⟩
+
 /-! ## non-vacuity over `ℚ` with the executable root `rsqrt` -/
 section examples
 
@@ -502,6 +559,33 @@ example : ∃ sL' sB', BiCGStabL.body exPrm1 stdIp Amgcl.rsqrt (7/10) exA exP 0 
   · cases h
 example := @bicgstabl_L1_init_rel
 example := bicgstabl_L1_guard_agree exPrm1.pside exP 2 4 0 exL0 exB0 exRel0 (by decide +kernel) (by decide +kernel)
+
+-- the whole loop with `maxiter = 1` from the initial states of the same 2x2 system
+private def exPrm1m : BiCGStabL.Params ℚ := { exPrm1 with maxiter := 1 }
+private def exL0m : BiCGStabL.St ℚ := BiCGStabL.init exPrm1m stdIp Amgcl.rsqrt exA exP (Work.fresh 2) #[1, 2] #[0, 0]
+example : ∃ sLe sBe, BiCGStabL.loop exPrm1m stdIp Amgcl.rsqrt (7/10) exA exP 0 0 1 exL0m = (none, sLe) ∧
+    BiCGStab.loop exPrm1m.pside stdIp Amgcl.rsqrt exA exP 0 1 exB0 = (none, sBe) ∧ sLe.iter = 1 ∧
+    xOut exPrm1m.pside exP sLe = sBe.x ∧ sLe.zeta = sBe.res ∧ sLe.iter = sBe.iter := by
+  have h : (match BiCGStabL.loop exPrm1m stdIp Amgcl.rsqrt (7/10) exA exP 0 0 1 exL0m with
+      | (none, s) => decide (s.iter = 1) | _ => false) = true := by decide +kernel
+  have hne : ∀ s1 b, bicgStep exPrm1m stdIp Amgcl.rsqrt exA exP 0 0 { exL0m with rho0 := (-exL0m.omega) * exL0m.rho0 }
+      = .ok (s1, b) → s1.zeta ≠ 0 := by
+    have h2 : (match bicgStep exPrm1m stdIp Amgcl.rsqrt exA exP 0 0 { exL0m with rho0 := (-exL0m.omega) * exL0m.rho0 } with
+        | .ok (s1, _) => decide (s1.zeta ≠ 0) | _ => true) = true := by decide +kernel
+    intro s1 b hs
+    rw [hs] at h2
+    exact of_decide_eq_true h2
+  have hnt : NoTie exPrm1m Amgcl.rsqrt (7/10) exA exP 0 0 1 exL0m :=
+    ⟨by decide +kernel, fun _ => ⟨hne, fun _ _ => trivial⟩⟩
+  have rel : Rel1 exPrm1m.pside exP 2 exL0m exB0 :=
+    bicgstabl_L1_init_rel exPrm1m exPrmB rfl rfl Amgcl.rsqrt exA exP 2 rfl (fun v => spmv_size' 1 0 exM v #[])
+      (fun _ => exP_lin) (Work.fresh 2) (BiCGStab.Work.fresh 2) #[1, 2] #[0, 0] rfl 0
+  split at h
+  · rename_i sLe hLe
+    obtain ⟨sBe, hBe, r1, r2, r3⟩ := bicgstabl_L1_loop_is_bicgstab exPrm1m rfl (by decide) Amgcl.rsqrt (7/10) exA exP 2
+      exAp_lin (fun _ => exP_lin) 0 0 1 exL0m sLe exB0 rel (by decide +kernel) hnt hLe
+    exact ⟨sLe, sBe, hLe, hBe, of_decide_eq_true h, r1, r2, r3⟩
+  · cases h
 
 -- the hypothesis `hsqrt` of the `_of_hsqrt` corollaries is satisfiable: the real square root
 example (prm : BiCGStabL.Params ℝ) :=
